@@ -9,7 +9,7 @@
    vacuity guard of the k-th law (the check requires TLC to refute it). *)
 EXTENDS Box
 
-CONSTANTS N, Rad, Bug
+CONSTANTS N, Rad, Bug, OldDistance
 Lo == -Rad
 Hi == Rad
 
@@ -97,4 +97,15 @@ DistanceLaw ==
        /\ (A \cap B = {}) => d = {Cardinality({x \in Lo..Hi : (\A y \in A : y < x) /\ (\A y \in B : x < y)}
                                                 \cup {x \in Lo..Hi : (\A y \in B : y < x) /\ (\A y \in A : x < y)})}
        /\ (A \cap B # {} /\ ~(A \subseteq B) /\ ~(B \subseteq A)) => d = {-Cardinality(A \cap B)}
+
+(* extension: the transcribed body of interval_distance returns what the documentation promises,
+   for every pair of non-empty intervals (each coordinate of the pair of boxes is one such pair),
+   in both argument orders.  OldDistance = TRUE transcribes the code before the repair: TLC must
+   refute the law (this is the defect reported as C13:interval_distance:nested-touching-not-zero). *)
+DistanceDocLaw ==
+  (Two /\ NonEmpty(a) /\ NonEmpty(b)) => \A i \in 1..N :
+    LET d == IntervalDistanceDoc(a.pos[i], a.max[i], b.pos[i], b.max[i]) IN
+    /\ IntervalDistanceImpl(a.pos[i], a.max[i], b.pos[i], b.max[i], OldDistance) = d
+    /\ IntervalDistanceImpl(b.pos[i], b.max[i], a.pos[i], a.max[i], OldDistance) = d
+    /\ d \in IntervalDistances(a.pos[i], a.max[i], b.pos[i], b.max[i])
 =============================================================================
